@@ -10,7 +10,7 @@ git -C /repo worktree add -q --detach $CF HEAD || exit 9
 cp $PATCH $CF/patch.diff; cp $DEMO $CF/demo.py
 cd $CF
 # demos written by sub-agents may name their own worktree; point them here
-sed -i "s#/tmp/w[0-9]*/[A-Za-z0-9_]*#$CF#g" demo.py
+sed -i "s#/tmp/w[0-9a-z]*/[A-Za-z0-9_]*#$CF#g" demo.py
 PYTHONPATH=$CF/src /venv/bin/python demo.py > /tmp/cf_${TAG}_demo0.txt 2>&1; D0=$?
 git apply patch.diff || { echo "$TAG PATCH DOES NOT APPLY"; git -C /repo worktree remove --force $CF; exit 8; }
 SUITE=$(PYTHONPATH=$CF/src /venv/bin/python -m pytest -q -p no:cacheprovider --timeout=900 src/wormhole_mailbox_server/test 2>&1 | tail -1)
